@@ -126,8 +126,15 @@ def slices {α} (l : List α) : List Nat → List (List α)
 /-- `split_time_gaps(dt)` on the stamps -/
 def splitTimeCuts (ts : List Rat) (dt : Rat) : List Nat := cutsOf dt (adjDiffs ts) ts.length
 
-/-- `split_distance_gaps(dist)`: `_jumps` looks at the differences of the accumulated distances -/
+/-- `split_distance_gaps(dist)`: `_jumps` thresholds the lengths of the steps between consecutive positions
+(since the repair of F17; before it, the differences of the accumulated distances: `splitDistCutsAcc`) -/
 def splitDistCuts (lens : List Rat) (thr : Rat) : List Nat :=
+  cutsOf thr lens (lens.length + 1)
+
+/-- the formulation `_jumps` had before F17: `where(distances[1:] - distances[:-1] > dist)`. Over the rationals it is
+the same function (`Props/C11.splitDist_acc_formulation_agrees`); in float64 the accumulated length cannot resolve a
+short step after a long leg, which is what F17 was. -/
+def splitDistCutsAcc (lens : List Rat) (thr : Rat) : List Nat :=
   cutsOf thr (adjDiffs (accDist lens)) (lens.length + 1)
 
 /-- `speeds`: `calc_speed` raises on a non-positive time step -/
